@@ -46,6 +46,8 @@ SPLITS = [None] + [[k, i] for k in ("ds", "list") for i in range(3)]  # lat i al
 NAMES = [("sample", "feature"), ("s", "f"), ("obs", "cell")]
 DEFAULT = dict(order=0, plat=0, plon=0, psam=0, split=0, names=0, sdims=0)
 DOMAIN = dict(order=len(ORDERS), plat=len(PLAT), plon=len(PLON), psam=len(PSAM), split=len(SPLITS), names=len(NAMES), sdims=2)
+# `weights` is not a presentation coordinate but a second base configuration: user weights given as a labelled field
+# in the BASE order, whatever the order in which the data stores its coordinates (the product is label-aligned)
 
 MODELS = ["EOF", "ComplexEOF", "HilbertEOF", "ExtendedEOF", "SparsePCA", "POP", "OPA", "EOFRotator", "CPCCA", "MCA", "MCARotator", "multiCCA", "EOFBootstrapper"]
 NO_SAMPLE_PERM = {"HilbertEOF", "ExtendedEOF", "POP", "OPA", "EOFBootstrapper"}
@@ -179,18 +181,30 @@ def build(model, names):
     return m, aux
 
 
-def fit_and_canon(model, node, seed, spec):
+def _weights_for(px, x, seed):
+    """User weights over (lat, lon) in the base coordinate order, shaped like the presentation's container."""
+    rng = np.random.default_rng([seed, 31])
+    W = xr.DataArray(0.5 + rng.random((x.sizes["lat"], x.sizes["lon"])), dims=("lat", "lon"), coords={"lat": x.lat.values, "lon": x.lon.values})
+    if isinstance(px, xr.Dataset):
+        return xr.Dataset({v: W.sel(lat=np.sort(px[v].dropna("lat", how="all").lat.values)) for v in px.data_vars})
+    if isinstance(px, list):
+        return [W.sel(lat=np.sort(p.lat.values)) for p in px]
+    return W
+
+
+def fit_and_canon(model, node, seed, spec, weights=False):
     cplx = model == "ComplexEOF"
     x, y = base_data(seed, spec, cplx)
     px, py = present(x, y, node, seed)
     m, aux = build(model, node["names"])
     dim = ("t", "r") if node.get("sdims", 0) == 1 else "time"
+    W = _weights_for(px, x, seed) if weights else None
     if model in CROSS:
-        m.fit(px, py, dim=dim)
+        m.fit(px, py, dim=dim, weights_X=W)
     elif model == "multiCCA":
         m.fit([px, py], dim=dim)
     else:
-        m.fit(px, dim=dim)
+        m.fit(px, dim=dim, weights=W)
     obj = m
     if aux is not None:
         aux.fit(m)
@@ -221,10 +235,10 @@ def fit_and_canon(model, node, seed, spec):
 
 
 @functools.lru_cache(maxsize=None)
-def base_canon(model, seed, spec):
+def base_canon(model, seed, spec, weights=False):
     with warnings.catch_warnings():
         warnings.simplefilter("ignore")
-        return fit_and_canon(model, dict(DEFAULT), seed, spec)
+        return fit_and_canon(model, dict(DEFAULT), seed, spec, weights)
 
 
 def applicable(model, node):
@@ -242,6 +256,11 @@ def cases(tier, seed):
         for m in MODELS:
             if applicable(m, n):
                 out.append(dict(node=n, model=m, spec="geometric"))
+    # the same graph (depth 1 quick / 2 thorough) with labelled user weights in the base order
+    for n in nodes(1 if tier == "quick" else 2):
+        for m in ("EOF", "SparsePCA", "MCA", "EOFRotator"):
+            if applicable(m, n):
+                out.append(dict(node=n, model=m, spec="geometric", weights=True))
     # degenerate spectrum: projector comparison, EOF only, depth 1 (quick) / 2
     for n in nodes(1 if tier == "quick" else 2):
         out.append(dict(node=n, model="EOF", spec="flat_pair"))
@@ -259,8 +278,8 @@ def run_case(case, seed):
     tol = 1e-7 if model in ITERATIVE else 1e-9
     with warnings.catch_warnings():
         warnings.simplefilter("ignore")
-        ref = base_canon(model, seed, spec)
-        got = fit_and_canon(model, node, seed, spec)
+        ref = base_canon(model, seed, spec, bool(case.get("weights")))
+        got = fit_and_canon(model, node, seed, spec, bool(case.get("weights")))
     for k in ref:
         a, b = ref[k], got[k]
         if spec == "flat_pair" and k in ("components", "scores"):
@@ -273,7 +292,7 @@ def run_case(case, seed):
                 ds = []
         if ds:
             so = bool("mode" in a.dims and not O.compare_da(abs(a), abs(b), tol, k, attrs=False, name=False))
-            V.append(viol("presentation_dependent", model, "node %s: %s" % (node, "; ".join(ds[:2])), answer=k.split("_")[0], magnitudes_equal=so, **feats))
+            V.append(viol("presentation_dependent", model, "node %s%s: %s" % (node, " with weights" if case.get("weights") else "", "; ".join(ds[:2])), answer=k.split("_")[0], magnitudes_equal=so, weights=bool(case.get("weights")), **feats))
     return dict(violations=V, outcome="violation" if V else "ok", nontrivial=not V, states=1, transitions=ndepth(node), traces=1, info=dict(depth=ndepth(node)))
 
 
